@@ -445,7 +445,8 @@ func (r *run) opSync(id string, out int, key uint64) (int, int, bool) {
 			return 0, 0, false
 		}
 		r.probe("sync-of-unknown-or-broken-table")
-		if err != regulator.ErrNotFoundTable {
+		if err == nil {
+			// refused = any error (it may be wrapped or carry context)
 			r.viol("C09", "unknown-table-not-refused", fmt.Sprintf("SyncState(%s) returned %v", id, err))
 		}
 		if r.reg.GetTable(id) != nil {
